@@ -218,6 +218,16 @@ def gen_texts(ctx):
                 add(t, "pow2edge")
                 if len(digs) < 60:
                     add("-" + digs + "e-" + str(scale), "pow2edge")
+    # G10 integer mantissas of 18..21 digits (around the 19-digit window and the 2^64 boundary) followed by
+    # every exponent spelling: e E e+ E+ e- E- with small exponents
+    for D in ["999999999999999999", "1000000000000000000", "9999999999999999999", "10000000000000000000", "18446744073709551615",
+              "18446744073709551616", "12345678901234567890", "99999999999999999999", "100000000000000000000", "184467440737095516150"]:
+        for E in ("e", "E"):
+            for sg in ("", "+", "-"):
+                for x in ("0", "1", "2", "05", "19"):
+                    add(D + E + sg + x, "window")
+                    add("-" + D + E + sg + x, "window")
+                    add(D[:-1] + "." + D[-1] + E + sg + x, "window")
     # G9 exponents at the 32-bit wrap with short and long mantissas
     for m in ["1", "9", "1.5", "12345678901234567890", "123456789012345678901234567", "0.000000000000000000000000001", "1" * 40]:
         for e in [4294967280 + i for i in range(0, 40, 3 if not T else 1)] + [2147483647, 2147483648, 429496729, 429496730, 4294967296 * 2 + 5, 99999999, 100000000, 100000001, 999999999, 1000000000]:
